@@ -20,6 +20,9 @@ func init() {
 const tSnapElem = "leveldb.snapshotElement"
 
 func runC03(p *Prog, r *Report) {
+	if want("C03.17") {
+		ruleSnapshotReadsFrozenSeq(p, r, "C03.17")
+	}
 	if want("C03.16") {
 		// (shared with C05) a snapshot read cannot lose its view to a concurrent Release
 		ruleSnapshotReadsUnderLock(p, r, "C03.16")
